@@ -7,7 +7,7 @@ func init() {
 		ID: "C01", Level: "exploration",
 		Rule: "generated histories (genesis family x state-aware txs of all 38 types x votes/evidence/time schedules); one evaluation = one committed height whose export was re-summed (every custom coin volume = holdings; base-coin total delta = emission delta); distinct = (tx type, response code) pairs and block kinds seen in checked blocks",
 		Assumptions: []string{"Export() of the live state after Commit reflects committed state (cross-checked against a from-disk export every 7th block)", "Tendermint is replaced by a driver issuing the same ABCI calls"},
-		Quick: 42, Thorough: 1500, MinEval: 500, MinDistinct: 30,
+		Quick: 42, Thorough: 420, MinEval: 500, MinDistinct: 30,
 		Run: func(ctx *WorkCtx, idx int) {
 			r := Rng(ctx.Seed, "C01", idx)
 			sc := StdScenario(idx, r, 120)
@@ -26,7 +26,7 @@ func init() {
 		ID: "C02", Level: "exploration",
 		Rule: "same history generator as C01 with boundary-heavy amounts (exact balance, balance+-1, zero, max supply); one evaluation = one committed height whose export and universe balances were checked for negatives, volume<=max supply, positive pool reserves; distinct = (tx type, code, kind) triples seen",
 		Assumptions: []string{"balances hidden by the export (non-positive) are read through GetBalance for all exported accounts x coins"},
-		Quick: 42, Thorough: 1500, MinEval: 500, MinDistinct: 30,
+		Quick: 42, Thorough: 420, MinEval: 500, MinDistinct: 30,
 		Run: func(ctx *WorkCtx, idx int) {
 			r := Rng(ctx.Seed, "C02", idx)
 			sc := StdScenario(idx, r, 120)
